@@ -40,10 +40,12 @@ NA_REASONS = {
 }
 
 NOT_BUILT = "simulation target per DESIGN.md §1 but its engine is not built/sound yet in this tree, so it is not claimed"
-for _p in "C14 C26 C27 C35 C36 C37 C39 C45".split():
+for _p in "C14 C26 C27 C36 C37 C39 C45".split():
     NA_REASONS[_p] = NOT_BUILT
 
 ENGINE_INFO = {
+    "E5-fault-sweep": {"path": "simkit/e5_refs.py", "serves_properties": ["C35"],
+                       "kind_free_text": "k-th-fallible-call fault sweep over compiled functions with refnanny + object conservation"},
     "E4-fault-plan": {"path": "simkit/e4_exc.py", "serves_properties": ["C22", "C44"],
                       "kind_free_text": "fault-plan simulation of generated exception-handling nests vs CPython (blocks, exc_info, chains, traceback lines)"},
     "E3-gen-history": {"path": "simkit/e3_gen.py", "serves_properties": ["C23"],
@@ -59,6 +61,12 @@ ENGINE_INFO = {
 }
 
 CHECKS = {
+    "C35": {
+        "engine": "E5-fault-sweep", "level": "fault_enumeration", "design_ref": "DESIGN.md §4 E5",
+        "technique": "deterministic fault injection: for every generated function the k-th fallible special-method call is made to raise, for ALL k (complete sweep per function), plus seeded double faults; invariants checked per run by the reference-nanny built from the tree, a live-object conservation counter, argument refcounts and crash isolation",
+        "text": "Functions over chaos objects are compiled with CYTHON_REFNANNY. A fault-free run counts the N fallible calls (special methods, iterator steps, conversions); then for every k < N exactly the k-th call raises Inj(k), so every generated error path of that function runs once; seeded pairs add a second fault during cleanup. Per run: refnanny reports nothing, the number of live chaos objects returns to the baseline after the result/exception is dropped (no leak, no double free), sys.getrefcount of the arguments is unchanged, no crash, and Inj(k) propagates (or the result equals CPython's where a handler can catch it and the call logs agree up to the fault). The sweep over k is exhaustive per function; functions are sampled.",
+        "note": "Pure-Python-syntax workloads only (.pyx typed arguments, cdef class attributes, memoryview acquisition are not built). Allocation failure is not injected. Cases whose call order already differs from CPython before the fault are not compared for results (C20's business), but still checked for refnanny/conservation/crash.",
+    },
     "C22": {
         "engine": "E4-fault-plan", "level": "fault_enumeration", "design_ref": "DESIGN.md §4 E4",
         "technique": "deterministic simulation with fault injection: the compiled program is fixed, a fault plan (probe occurrence -> exception) decides what fails where; all single faults over an exception catalogue plus seeded double/triple faults (faults while another exception is in flight); refinement of block order, sys.exc_info() snapshots, cause/context chains against CPython; ddmin-minimised plan as replay",
